@@ -40,12 +40,12 @@ RULE = ('random class diagrams as for C14, every second one with XML-special / n
         '0-6); on Simple_Model.xtuml every single edit at every site (rename each attribute, retype each base '
         'attribute to each data type, add a base / derived / referential / unsupported attribute to each class, add an '
         'enumerator, every permutation of the enumerators, add a user type of each base in each container, move each '
-        'class to each container) and random scripts. Non-trivial: the component contains a class with a declared '
+        'class to each container) and random scripts; plus the WRITTEN FILE character by character: for every third diagram (rows in modeled order, so the document order is defined) the text written by main equals the specified text (one element per line, four blanks per level, attribute order, the four replacements of minidom). Non-trivial: the component contains a class with a declared '
         'attribute and, if there are edits, they change the tree; distinct = distinct case content')
 EXHAUSTIVE = {'quick': False, 'thorough': False}
 ASSUMPTIONS = [
     'domain: well-formed populations as for C14; data type names are unique (xs:simpleType names must be)',
-    'XML escaping / serialisation is ElementTree\'s and minidom\'s: validated by re-parsing the written file, not modelled',
+    'the written text is modelled as minidom.toprettyxml of Python 3.12.1 writes it (attribute values: & < > " replaced); names with CR, LF or TAB are outside the domain (that version writes them raw and an XML parser then reads blanks)',
 ]
 TRUSTED_EXTRA = ['harness/ooa_encoder.py: diagram -> ooaofooa rows, decode, the Python specification py_xsd (oracle of D), '
                  'canon_xml']
@@ -142,6 +142,9 @@ def generate(ctx):
         edits = _xscript(r, d, r.randint(1, ctx.pick(3, 6))) if (entry == 'build' and r.random() < 0.75) else []
         yield {'src': 'synth', 'diagram': d, 'comp': name, 'edits': edits, 'entry': entry,
                'perm': r.randint(1, 1 << 30), 'audit': i % 5 == 0}
+        if i % 3 == 0:
+            # the written file, character by character (rows in modeled order: the document order is then defined)
+            yield {'src': 'synth', 'diagram': d, 'comp': r.choice(comps), 'edits': [], 'entry': 'text', 'perm': None}
 
 
 def _comp_id(d, name):
@@ -171,6 +174,28 @@ def run_impl(case):
 
     with tempfile.TemporaryDirectory(dir=_ctx['tmp']) as tmpdir:
         loader, path = C14._loader_for(case, tmpdir)
+        if entry == 'text':
+            out = os.path.join(tmpdir, 'schema.xsd')
+            import logging
+            try:
+                gen_xsd.main(['-c', name, '-o', out, path])
+            finally:
+                logging.disable(logging.CRITICAL)
+            text = open(out, encoding='utf-8').read()
+            want = E.py_file_text(E.py_xsd_tree(d0, comp), lambda tag: E.XSD_ATTR_ORDER.get(tag, []))
+            if text != want:
+                k = next((j for j in range(min(len(text), len(want))) if text[j] != want[j]), min(len(text), len(want)))
+                fail('file-text', 'the written file differs from the specified text at offset %d: written %r, specified %r'
+                     % (k, text[max(0, k - 40):k + 40], want[max(0, k - 40):k + 40]))
+            try:
+                xml.dom.minidom.parseString(text.encode('utf-8'))
+                ET.fromstring(text.encode('utf-8'))
+            except Exception as ex:
+                fail('not-well-formed', 'the written file does not parse: %s: %s' % (type(ex).__name__, ex))
+            key = hashlib.sha1(json.dumps(case, sort_keys=True, default=str).encode()).hexdigest()
+            stats['chars'] = len(text)
+            return {'obs': ['text', text], 'd_fail': fails[:3], 'nontrivial': 'xs:attribute' in text, 'key': key,
+                    'stats': stats}
         if entry == 'build':
             m = loader.build_metamodel()
             if case.get('audit'):
@@ -273,12 +298,16 @@ def _diff(got, want):
 
 def model_line(case):
     d = C14._diagram_of(case)
+    if case['entry'] == 'text':
+        return dumps([Sym('c20-text'), E.diagram_sexp(d), case['comp']])
     return dumps([Sym('c20'), E.diagram_sexp(d), case['comp'], [E.xedit_sexp(e) for e in case['edits']]])
 
 
 def model_obs(case, ans):
     if ans[0] == 'error':
         return ['error', str(ans[1])]
+    if case['entry'] == 'text':
+        return ['text', ans[1]]
     t0, t1, t2 = (E.canon_xml(E.tree_of_sexp(x)) for x in ans[1:4])
     if t1 != t2:
         return ['model-inconsistent', t1, t2]
